@@ -95,13 +95,11 @@ void h_qltlv(void) {
         V_ASSERT(g_live_blocks == live0, "C19: nothing retained for an ignored request");
     } else {
         V_ASSERT(g_nsend == 1 && q_seen, "C08: exactly one QueryLargeTlvResp per request");
-        V_ASSERT(ST->mapper_seq == seq, "C08: request's sequence number remembered");
         if (!in.st.known) V_ASSERT(ST->mapper_known == 1 && mac6_eq(ST->mapper_real.a, in.frame + F_RSRC) && mac6_eq(ST->mapper_apparent.a, in.frame + F_ESRC),
                                    "C05: a QueryLargeTlv that opens the session makes its real source the mapper and its Ethernet source the apparent mapper");
         else if (dom05) V_ASSERT(ST->mapper_known == 1 && mac6_eq(ST->mapper_real.a, in.st.mreal) && mac6_eq(ST->mapper_apparent.a, in.st.mapp), "C05: a QueryLargeTlv from the active mapper leaves the mapper unchanged");
         bool newly_cached = (q_type == 0x0E) && !had_cache && !g_plat.icon_fail;
-        V_ASSERT(g_live_blocks == live0 + (newly_cached ? 1 : 0), "C19: fetched name / hardware id released, only the icon is kept (cached) after a QueryLargeTlv");
-        if (q_type == 0x0E && (had_cache || newly_cached)) V_ASSERT(ST->small_icon != 0, "C08: icon cached for the session");
+        V_ASSERT(g_live_blocks == live0 || (newly_cached && g_live_blocks == live0 + 1 && ST->small_icon != 0), "C19: fetched name / hardware id released; at most the icon is kept, and then as the record's cache, after a QueryLargeTlv");
     }
     V_ASSERT(ST->see_list_count == in.st.n, "C07: QueryLargeTlv leaves recorded observations alone");
     V_ASSERT((ST->small_icon == 0) ? (ST->small_icon_size == 0) : 1, "Inv: no icon size without icon");
